@@ -35,6 +35,18 @@ theorem spawn_returns_started_or_ended (max mw : Nat) (script : List Outcome) :
   have h := Shape.spawn_post (3 * script.length + 6) max mw script (by omega)
   exact ⟨h.2.1.1, h.2.2.2, h.2.2.1⟩
 
+/-- the state every history ends in: an actor that has ended - by stop, poison, crash beyond the
+    budget - has handled Stopped as the LAST delivery of its last incarnation (phase `stopped`, and
+    by `lifecycle_shape` nothing was delivered after it) and its inbox is closed, so nothing can be
+    delivered later either; an actor that has not ended is in phase `started` (never observed
+    half-initialised between batches). For every budget, chain, crash script and history. -/
+theorem history_ends_stopped_or_started (max mw : Nat) (script : List Outcome) (batches : List (List Msg)) :
+    let s := (runHistory max mw script batches).1
+    (s.stopped = true → (lcRun s.trace).phase = .stopped ∧ s.inboxOpen = false) ∧
+    (s.stopped = false → (lcRun s.trace).phase = .started) :=
+  let h := Shape.history_post max mw script batches
+  ⟨h.2.2.1, h.2.2.2⟩
+
 /-- non-vacuity of both branches: a clean spawn is alive and started; a spawn whose Started handler
     panics with no budget ends stopped. -/
 example : (spawn 6 0 0 []).1.stopped = false ∧ (spawn 12 0 0 [.ok, .panic]).1.stopped = true := by
